@@ -410,6 +410,7 @@ class Repo(object):
             objflat._link(tree)
             objflat.expand_element_attributes(tree)
             objflat.unalias_memoised(tree)
+            objflat.inline_bases(tree, lambda name, tree=tree, rel=rel: self._class_named(tree, rel, name))
             objflat.inline_skeletons(tree)
             objflat._link(tree)
             objflat.inline_generators(tree, lambda name, tree=tree, rel=rel: self._generator_named(tree, rel, name))
@@ -423,6 +424,35 @@ class Repo(object):
             self._mods[rel].repo = self
             self._mods[rel].tree._pymodule = self._mods[rel]
         return self._mods[rel]
+
+    def _class_named(self, tree, rel, name):
+        """the class `name` of this module, or of the module of the package it is imported from (as loaded, i.e. with its
+        own normalisations applied)"""
+        for s_ in tree.body:
+            if isinstance(s_, ast.ClassDef) and s_.name == name:
+                return s_
+        loading = self.__dict__.setdefault('_loading', set())
+        for s_ in tree.body:
+            if isinstance(s_, ast.ImportFrom) and s_.module and s_.level == 0:
+                for al in s_.names:
+                    if (al.asname or al.name) == name:
+                        for other in (s_.module.replace('.', '/') + '.py', s_.module.replace('.', '/') + '/__init__.py'):
+                            if self.exists(other) and other != rel and other not in loading:
+                                loading.add(rel)
+                                try:
+                                    text = self.text(other)
+                                finally:
+                                    loading.discard(rel)
+                                # the class as written in its own module (not the normalised tree: the base may have been
+                                # merged into a sibling there)
+                                try:
+                                    raw = ast.parse(text, filename=other)
+                                except SyntaxError:
+                                    return None
+                                for d in raw.body:
+                                    if isinstance(d, ast.ClassDef) and d.name == al.name:
+                                        return d
+        return None
 
     def _generator_named(self, tree, rel, name):
         """the module-level function `name` of this module, or of the module of the package it is imported from"""
